@@ -44,13 +44,13 @@ def cases(tier, seed):
                 continue
             for utd in (False, True):
                 out.append({"sub": "dets", "n_orbs": n_orbs, "mapping": m, "utd": utd})
-    out += [{"sub": "commute", "i": i} for i in range(24 if tier == "quick" else 300)]
+    out += [{"sub": "commute", "i": i} for i in range(24 if tier == "quick" else 3000)]
     for mi, nch in ([(0, 1), (1, 2), (2, 2), (3, 6)] if tier == "quick" else [(0, 1), (1, 2), (2, 2), (3, 6), (4, 6), (5, 6), (6, 6)]):
         out += [{"sub": "pool", "mol": mi, "chunk": c, "nchunks": nch} for c in range(nch)]
     mols = 3 if tier == "quick" else 7
     for mi in range(mols):
         for kind in sorted(ansatzlib.PARTICLE_CONSERVING) + ["pUCCD", "UpCCGSD4"]:
-            for r in range(2 if tier == "quick" else 6):
+            for r in range(2 if tier == "quick" else 20):
                 out.append({"sub": "ansatz", "mol": mi, "kind": kind, "rep": r})
     return out
 
